@@ -30,7 +30,7 @@ ASSUMPTIONS = [
     'HITRAN gaps: master temperature grid = union over ranges; inside a range\'s own temperature span linear interpolation, outside zero',
     'HDF5 cross-section files identify the molecule by their mol_name dataset (as written by ExoMol), which is generated already sanitised',
 ]
-REQUIRED = {'cia:overlapping-ranges': 0.006, 'part:xsec': 0.1, 'part:ktable': 0.05, 'part:cia': 0.05, 'part:cache': 0.1}
+REQUIRED = {'cia:ranges-listed-descending': 0.012, 'cia:overlapping-ranges': 0.006, 'part:xsec': 0.1, 'part:ktable': 0.05, 'part:cia': 0.05, 'part:cache': 0.1}
 # coverage-guided extra (thorough tier): pure-Python taurex modules on this property's path, instrumented by atheris
 FUZZ = {'include': ['taurex.opacity', 'taurex.cia', 'taurex.cache', 'taurex.util.util'], 'runs': 8000, 'workers': 4}
 
@@ -53,7 +53,7 @@ def _table(draw, nwn=None):
 
 @st.composite
 def _case(draw):
-    part = draw(st.sampled_from(['cia', 'xsec', 'cache', 'ktable', 'cia', 'xsec', 'cache']))
+    part = draw(S.pick(['cia', 'xsec', 'cache', 'ktable', 'cia', 'xsec', 'cache']))
     c = {'part': part, 'name': draw(S.ints(0, len(NAMES) - 1)), 'iso': draw(st.booleans()),
          'table': draw(_table()), 'tp': [[draw(st.floats(-0.3, 1.3)), draw(st.floats(-0.3, 1.3))] for _ in range(4)],
          'mode': draw(st.sampled_from(['linear', 'exp']))}
@@ -66,6 +66,7 @@ def _case(draw):
         c['pair'] = draw(st.sampled_from(['H2-H2', 'H2-He', 'N2-N2', 'CO2-CO2']))
         c['split'] = draw(st.sampled_from([False, True, True]))
         c['interleave'] = draw(st.sampled_from([True, False, True]))
+        c['ranges_reversed'] = draw(st.booleans())
         c['subset'] = draw(st.lists(st.booleans(), min_size=3, max_size=3))
         c['negative'] = draw(st.booleans())
         c['block_order'] = draw(st.sampled_from(['descending', 'ascending', 'rotated']))
@@ -298,8 +299,12 @@ def check_cia(out, c, tmp):
         else:
             ranges = [(allw[:h], list(range(len(Tg)))), (allw[h:], sub)]
         out.cls('cia:split-ranges')
+    file_ranges = list(ranges)
+    if c.get('ranges_reversed') and len(ranges) > 1:
+        file_ranges = file_ranges[::-1]          # the higher band listed first in the file: any order of blocks is legal
+        out.cls('cia:ranges-listed-descending')
     with open(hit, 'w') as f:
-        for (idx_, temps) in ranges:
+        for (idx_, temps) in file_ranges:
             order_t = list(temps)
             if c.get('block_order') == 'descending':
                 order_t = order_t[::-1]
